@@ -64,6 +64,11 @@ func c07Decoders() []absDecoder {
 		absDecoder{pkg: "rtmp", fn: "(*Protocol).readBasicHeader", dataArg: -1, stream: "v.r"},
 		// readMessageHeader is only called with the 2-bit format readBasicHeader returned (checked below: C07.bounds ...|format-is-2-bits)
 	)
+	out = append(out,
+		// buffer assemblers of the JOSE key derivation / MAC input: lengths of all pieces symbolic
+		absDecoder{pkg: "https/jose/cipher", fn: "(*cbcAEAD).computeAuthTag", dataArg: -1},
+		absDecoder{pkg: "https/jose/cipher", fn: "NewConcatKDF", dataArg: -1},
+	)
 	for f := int64(0); f < 4; f++ {
 		out = append(out,
 			absDecoder{pkg: "rtmp", fn: "(*Protocol).readMessageHeader", name: fmt.Sprintf("new-message,fmt%d", f), dataArg: -1, stream: "v.r", bind: map[string]int64{"format": f}, nilv: []string{"chunk.message"}},
@@ -76,9 +81,12 @@ func c07Decoders() []absDecoder {
 // the large packages the functions taken (everything else there is JSON/ASN.1/HTTP glue over the standard library).
 var c07Scope = map[string][]string{
 	"rtmp": nil, "amf0": nil, "flv": nil, "aac": nil, "avc": nil,
-	"websocket":         {"(*Conn).advanceFrame", "(*Conn).read", "(*messageReader).Read", "(*Conn).NextReader", "(*Conn).ReadMessage"},
-	"json":              {"NewCommentReader$1", "firstMatch", "indexUnescaped", "(*commentReader).Read"},
-	"https/jose/cipher": {"(*cbcAEAD).Open", "unpadBuffer"},
+	"websocket": nil, "json": nil, "https/jose": nil, "https/jose/cipher": nil, "https/crypto/ocsp": nil,
+}
+
+// c07Trusted: functions whose bounds obligations are not analysed, one symbol per row with the reason.
+var c07Trusted = map[string]string{
+	"websocket.maskBytes": "upstream gorilla word-wise XOR through unsafe pointers: the unsafe part has no bounds obligations at all and the byte-wise head/tail loops are driven by pointer alignment arithmetic; trusted as upstream code (the appengine build's plain loop is analysed in the thorough tier)",
 }
 
 // c07Entries are the decoder entry points (resolved by object identity; a missing one is an anchor failure).
@@ -120,6 +128,9 @@ func runC07(c *Ctx) {
 		if !ok {
 			return false
 		}
+		if _, trusted := c07Trusted[core.QualName(fn)]; trusted {
+			return false
+		}
 		if names == nil {
 			return true
 		}
@@ -132,7 +143,18 @@ func runC07(c *Ctx) {
 	}
 
 	// ---- abstract interpretation on fully symbolic inputs
-	type absVerdict struct{ proven, unproven int }
+	type absVerdict struct {
+		proven, unproven int
+		detail           string
+	}
+	// functions whose sites get their own obligation below (an unproven site is reported there, where a guard or a
+	// listed contract may still discharge it)
+	ownObligation := map[string]bool{}
+	for fn := range reach {
+		if inScope(fn) {
+			ownObligation[core.QualName(fn)] = true
+		}
+	}
 	absSites := map[string]*absVerdict{} // func|pos
 	absFuncs := map[string]bool{}
 	e := abs.NewEngine(P)
@@ -180,7 +202,13 @@ func runC07(c *Ctx) {
 					absSites[k].proven++
 				} else {
 					absSites[k].unproven++
-					problems = append(problems, fmt.Sprintf("out of range possible at %s: %s%s", b.Pos, b.What, pathSuffix(r)))
+					d := fmt.Sprintf("out of range possible at %s: %s%s", b.Pos, b.What, pathSuffix(r))
+					if absSites[k].detail == "" {
+						absSites[k].detail = d
+					}
+					if !ownObligation[b.Func] {
+						problems = append(problems, d)
+					}
 				}
 				absFuncs[b.Func] = true
 			}
@@ -247,7 +275,11 @@ func runC07(c *Ctx) {
 				R.OK("C07.bounds", key, pos, "contract: "+why)
 				continue
 			}
-			R.Fail("C07.bounds", key, pos, "this "+s.Kind+" is not proven in range for untrusted input: "+describeSite(s), nil)
+			msg := "this " + s.Kind + " is not proven in range for untrusted input: " + describeSite(s)
+			if v := absSites[core.QualName(fn)+"|"+pos]; v != nil && v.detail != "" {
+				msg += " (abstract interpretation: " + v.detail + ")"
+			}
+			R.Fail("C07.bounds", key, pos, msg, nil)
 		}
 	}
 	R.Extra["bounds_by_abstract_interpretation"] = nAbs
@@ -259,6 +291,7 @@ func runC07(c *Ctx) {
 	checkPanics(c, reach, roots)
 	checkEphemeralKeyValidated(c)
 	checkFormatFact(c)
+	checkResizeCallers(c)
 	// the guarantee side of the contract of rtmp.(*Protocol).readMessagePayload|make#1 (len(Payload) <= payloadLength while a
 	// message is attached): a changed length and a type-0 header inside an unfinished message are rejected, and a
 	// completed message is detached from its chunk stream
@@ -760,6 +793,10 @@ func storedThenLoaded(call *ssa.Call, v ssa.Value) bool {
 var c07Contracts = map[string]string{
 	"amf0.(*objectBase).unmarshal|slice#1": "readOne returned a nil error, i.e. Discovery(p) accepted p, which requires len(p) >= 1 (Discovery's first test, proven by its own symbolic run)",
 	"rtmp.(*Protocol).readMessagePayload|make#1": "invariant of an attached unfinished message: len(Payload) < payloadLength (a changed length and a type-0 header mid-message are rejected: C02.reject; completed messages are detached: C02.complete), and min() with a chunk size >= 0",
+	"https/jose/cipher.(*cbcAEAD).computeAuthTag|slice#4": "configuration, not input: the HMAC digest (SHA-256/384/512: 32/48/64 bytes, selected in NewCBCHMAC by the key size) is at least as long as the tag size stored beside it (16/24/32)",
+	"https/jose/cipher.KeyUnwrap|slice#2":               "i ranges over r, made with n = len(ciphertext)/8 - 1 elements (n >= 1 by the length guard at entry), so (i+1)*8 <= n*8 <= len(ciphertext) - 8",
+	"https/jose/cipher.KeyUnwrap|slice#10":              "out has n*8 bytes and i ranges over r (n elements), so i*8 <= n*8",
+	"https/jose/cipher.resize|slice#2":                   "head has n >= len(in) elements: every caller passes n = len(in) + k (checked: C07.bounds https/jose/cipher|resize|callers-pass-n>=len(in))",
 	"websocket.(*messageReader).Read|slice#2": "io.Reader contract of bufio.Reader.Read: 0 <= n <= len(b)",
 	// JSON+ scanner: firstMatch returns (-1,-1) or an index into flags with 0 <= pos <= len(data)-len(flags[index]) (bytes.Index post-condition);
 	// the four marker tables have equal length (C17.tables), and the (-1,-1) case returns before any use
@@ -795,6 +832,50 @@ func describeSite(s core.BoundSite) string {
 		return "make(len=" + core.Path(x.Len) + ")"
 	}
 	return s.In.String()
+}
+
+// checkResizeCallers: the caller-side fact the contract of cipher.resize|slice#2 relies on.
+func checkResizeCallers(c *Ctx) {
+	P, R := c.P, c.R
+	rz := P.Func("https/jose/cipher", "resize")
+	if !R.Anchor(rz != nil, "C07.bounds", "https/jose/cipher.resize") {
+		return
+	}
+	n, bad := 0, ""
+	for _, fn := range P.ModuleFuncs() {
+		core.EachInstr(fn, func(in ssa.Instruction) {
+			call, ok := in.(*ssa.Call)
+			if !ok || call.Call.StaticCallee() != rz {
+				return
+			}
+			n++
+			// second argument: an unsigned sum one of whose terms is uint64(len(first argument))
+			var hasLen func(v ssa.Value, d int) bool
+			hasLen = func(v ssa.Value, d int) bool {
+				if d > 4 {
+					return false
+				}
+				switch x := v.(type) {
+				case *ssa.Convert:
+					return hasLen(x.X, d+1)
+				case *ssa.BinOp:
+					bt, isB := x.Type().Underlying().(*types.Basic)
+					return x.Op == token.ADD && isB && bt.Info()&types.IsUnsigned != 0 && (hasLen(x.X, d+1) || hasLen(x.Y, d+1))
+				case *ssa.Call:
+					if b, ok := x.Call.Value.(*ssa.Builtin); ok && b.Name() == "len" {
+						return sameValue(x.Call.Args[0], call.Call.Args[0])
+					}
+				}
+				return false
+			}
+			if !hasLen(call.Call.Args[1], 0) {
+				bad = P.InstrPos(call)
+			}
+		})
+	}
+	R.Check(bad == "" && n >= 2, "C07.bounds", "https/jose/cipher|resize|callers-pass-n>=len(in)", P.Pos(rz.Pos()),
+		fmt.Sprintf("all %d callers pass n = uint64(len(in)) + k", n),
+		"resize is called at "+bad+" with a size that is not len(in) plus something: head[len(in):] can be out of range", nil)
 }
 
 // checkFormatFact: the caller-side fact the readMessageHeader run relies on.
@@ -1353,6 +1434,7 @@ func checkTerm(c *Ctx, fns []*ssa.Function) {
 
 // c07Loops: loops whose exit argument was established by reading, keyed like the obligations.
 var c07Loops = map[string]string{
+	"https/jose/cipher.(*concatKDF).Read|loop#1": "each round appends a fresh digest: copy(out[copied:], hash) moves copied forward by min(len(hash), remaining) >= 1 because a hash.Hash digest is never empty; the loop ends when out is full (output size is the configured key size, not input)",
 	"amf0.(*objectBase).unmarshal|loop#1": "every iteration calls readOne, which returns an error on a short slice or advances the captured cursor by u.Size() >= 2 bytes; the loop ends with the input or at the end marker",
 	"amf0.(*objectBase).unmarshal|loop#2": "same cursor progress as loop#1, and bounded by maxElems appended properties",
 }
@@ -1505,6 +1587,12 @@ func loopVariant(P *core.Program, fn *ssa.Function, hdr *ssa.BasicBlock) string 
 	for i, pr := range hdr.Preds {
 		if inLoop[pr] {
 			back = append(back, i)
+		}
+	}
+	// (0) range over a map or string: the iterator instruction in the header ends the loop
+	for _, in := range hdr.Instrs {
+		if _, ok := in.(*ssa.Next); ok {
+			return "range over a finite map/string (iterator exhausted)"
 		}
 	}
 	// (1) induction variable / (2) shrinking cursor: on EVERY back edge the header phi has moved, and an exit tests it
